@@ -10,7 +10,7 @@ fn expect(body: &str, radix: u32) -> Option<String> {
     if v > u32::MAX as u64 { return None; }
     char::from_u32(v as u32).map(|c| c.to_string())
 }
-const BOUND: &str = "all &#D..; with 1-3 decimal digits, all &#xH..; with 0-3 hex digits (both cases), edge values around 0xD800/0xE000/0x10FFFF/2^32, and named &amp; &lt; &nosuch;";
+const BOUND: &str = "all &#D..; with 1-3 decimal digits, all &#xH..; with 0-3 hex digits (both cases), edge values around 0xD800/0xE000/0x10FFFF/2^32, named &amp; &lt; &nosuch;, and all 2231 entries of the HTML named character reference table (one- and two-code-point names; the 106 spellings without `;` are rejected)";
 fn cases() -> Vec<(String, Option<String>)> {
     let mut v = vec![];
     let dec = "0123456789";
@@ -31,6 +31,16 @@ fn cases() -> Vec<(String, Option<String>)> {
     v.push(("&amp;".into(), Some("&".into())));
     v.push(("&lt;".into(), Some("<".into())));
     v.push(("&nosuch;".into(), None));
+    // every named reference of the HTML table (the `entities` crate, the same version the compiler links): the
+    // expected text is built from the table's code points (one or two), not from its `characters` field
+    for e in entities::ENTITIES.iter() {
+        let want: String = match e.codepoints {
+            entities::Codepoints::Single(a) => char::from_u32(a).into_iter().collect(),
+            entities::Codepoints::Double(a, b) => char::from_u32(a).into_iter().chain(char::from_u32(b)).collect(),
+        };
+        // the spellings without `;` are not references in WXML
+        v.push((e.entity.to_string(), if e.entity.ends_with(';') { Some(want) } else { None }));
+    }
     v
 }
 fn check(e: &str, want: &Option<String>) -> Option<(String, String)> {
